@@ -226,6 +226,66 @@ let judge _id (c : cursor) (r : cursor) : bool * string =
        if not (List.length mp = List.length ipts && List.for_all2 qs_eq mp ipts) then disagree "extractBestUsefulPoints_order" site "arrays differ"
      | _ -> oracle_fail "extractBestUsefulPoints_no_UB" site "repaired model reaches UB");
     (np > 1 && ik < np, kind)
+  | "mlm" ->
+    let mk = next c in let ek = next c in
+    let nS = next_int c in let nA = next_int c in
+    let nops = next_int c in
+    let visits = Array.make (nS * nA * nS) 0 in
+    let reset_seen = ref false and last_full = ref false in
+    for _ = 1 to nops do
+      (match next c with
+       | "r" -> let s0 = next_int c in let a = next_int c in let s1 = next_int c in let _ = next_q c in
+         let k = (s0 * nA + a) * nS + s1 in visits.(k) <- visits.(k) + 1; last_full := false
+       | "y" -> last_full := true
+       | "p" -> ignore (next_int c); ignore (next_int c); last_full := false
+       | "q" -> ignore (next_int c); ignore (next_int c); ignore (next_int c); last_full := false
+       | "z" -> Array.fill visits 0 (Array.length visits) 0; reset_seen := true; last_full := false
+       | op -> failwith ("mlm: unknown op " ^ op))
+    done;
+    let site = (if mk = "S" then "MDP::SparseMaximumLikelihoodModel<" else "MDP::MaximumLikelihoodModel<")
+               ^ (if ek = "d" then "MDP::Experience>" else "MDP::SparseExperience>") ^ "::sync" in
+    let idups = next_small r in let ibad = next_small r in let ifirst = next_small r in
+    if idups <> 0 then oracle_fail "sparse_rows_wellformed" site (Printf.sprintf "%d duplicate / unsorted inner indices, first after operation %d" idups ifirst);
+    if ibad <> 0 then oracle_fail "rows_are_distributions" site (Printf.sprintf "%d (row, operation) pairs where a transition row is not a distribution, first after operation %d" ibad ifirst);
+    let eps = q_of_ints 1 1000000000 in
+    for a = 0 to nA - 1 do
+      for s0 = 0 to nS - 1 do
+        let n = next_small r in
+        let ent = List.init n (fun _ -> let col = next_small r in let v = next_q r in (col, v)) in
+        let rec inc = function (c1, _) :: (((c2, _) :: _) as t) -> c1 < c2 && inc t | _ -> true in
+        if not (inc ent) then oracle_fail "sparse_rows_wellformed" site (Printf.sprintf "row (%d,%d) stores its columns as %s" s0 a (str_ints (List.map fst ent)));
+        let sum = List.fold_left (fun acc (_, v) -> q_add acc v) q_zero ent in
+        if not (q_le (q_abs (q_sub sum q_one)) eps) then oracle_fail "rows_are_distributions" site (Printf.sprintf "row (%d,%d) sums to %s" s0 a (string_of_q sum));
+        if !last_full then begin
+          let tot = ref 0 in for s1 = 0 to nS - 1 do tot := !tot + visits.((s0 * nA + a) * nS + s1) done;
+          if !tot > 0 || not !reset_seen then
+            for s1 = 0 to nS - 1 do
+              let expect = if !tot > 0 then q_of_ints visits.((s0 * nA + a) * nS + s1) !tot else (if s1 = s0 then q_one else q_zero) in
+              let got = List.fold_left (fun acc (c1, v) -> if c1 = s1 then q_add acc v else acc) q_zero ent in
+              if not (q_le (q_abs (q_sub got expect)) eps) then
+                oracle_fail "synced_row_is_empirical" site (Printf.sprintf "T(%d,%d,%d) = %s after sync(), visits say %s" s0 a s1 (string_of_q got) (string_of_q expect))
+            done
+        end
+      done
+    done;
+    (nops > 4, "mlm_" ^ mk ^ ek)
+  | "reuse" ->
+    let which = next c in let tol = next_q c in let n = next_int c in
+    let site = (if which = "sarsop" then "POMDP::SARSOP" else "POMDP::GapMin") ^ "::operator()#second_call" in
+    if (not (at_end r)) && peek r = "NOCONV" then (false, "reuse_noconv")
+    else begin
+      let slack = q_add tol (q_of_ints 1 1000000) in
+      for i = 1 to n do
+        let lb = next_x r in let ub = next_x r in let flb = next_x r in let fub = next_x r in
+        (match lb, ub, flb, fub with
+         | Fin lb, Fin ub, Fin flb, Fin fub ->
+           (* both brackets contain V*(b0), so they must intersect (up to the tolerance the solver was given) *)
+           if q_lt (q_add fub slack) lb || q_lt (q_add ub slack) flb then
+             oracle_fail "reuse_consistent" site (Printf.sprintf "solve %d on the reused object gives [%s, %s], a fresh object [%s, %s]" i (string_of_q lb) (string_of_q ub) (string_of_q flb) (string_of_q fub))
+         | _ -> oracle_fail "reuse_consistent" site (Printf.sprintf "solve %d returned a non-finite bound" i))
+      done;
+      (n > 1, "reuse_" ^ which)
+    end
   | "fg" -> Fg.judge_fg c r
   | _ -> failwith ("unknown case kind " ^ kind)
 
